@@ -4,6 +4,7 @@ import WuffsVerif.Model.Rac.ChunkWriter
 import WuffsVerif.Model.Rac.Writer
 import WuffsVerif.Model.Rac.HCodec
 import WuffsVerif.Model.Rac.Spec
+import WuffsVerif.Model.Rac.Dict
 /-! Line driver for C13 (lib/rac writer.go, chunk_writer.go; doc/spec/rac-spec.md).
 
 Stateless ops
@@ -19,6 +20,12 @@ Stateless ops
   calcsize <codec> <atEnd> <leaves>    -> <indexSize> tree
   windex <codec> <atEnd> <cFileSize> <dataCOffset> <indexCOffset> <rcl-list> <leaves> -> ok <hex> | err <word> <hex>
   spec <hex>                           -> ok <dFileSize> <n> <hash> <first chunks> | bad <rule>
+  dictwrap <z|s> <seed> <len>          -> ok <wrappedLen> <hash>   (racdict.Saver.WrapResource with raczlib's / raczstd's refine,
+                                                                    on <len> bytes of the generator `genBytes seed`)
+  dictwraph <z|s> <hex>                -> ok <hex>
+  dictload <ttag> <ter> <hex>          -> ok <hex> | err <word>    (racdict.Loader.Load on the bytes of CSecondary)
+  dictsel <k> <base> <hex,hex,…|none>  -> ok <sec> <len> <marker> | err <word>   (racdict.Saver.Compress with refine = last k
+                                          bytes and the test codec `fakeCompress`)
 Stateful ops (after `reset`)
   cw <loc> <cpagesize> <temp> <failAt>                   -> ok
   addres <hex>                                           -> ok <id> <W> <T> | err <word> <W> <T>
@@ -70,6 +77,33 @@ def specVerdict (file : Array UInt8) : String :=
     if !Spec.tiles 0 cs d then "bad tiling" else
     s!"ok {d} {cs.length} {chunkHash cs} " ++
       (if cs.isEmpty then "-" else ";".intercalate ((cs.take 100).map showChunk))
+
+/-- the byte generator shared with the harness (`genBytes` in dict.go): a 64-bit LCG, top byte -/
+def genBytes (seed n : Nat) : Bytes := Id.run do
+  let mut x := seed % 18446744073709551616
+  let mut out : Array UInt8 := Array.mkEmpty n
+  for _ in [0:n] do
+    x := (x * 6364136223846793005 + 1442695040888963407) % 18446744073709551616
+    out := out.push (UInt8.ofNat (x >>> 56))
+  return out.toList
+
+def hashBytes (b : Bytes) : Nat :=
+  b.foldl (fun h c => (h * 16777619 + c.toNat) % 18446744073709551616) 14695981039346656037
+
+/-- the test codec of the `dictsel` op (twin of `fakeCompress` in dict.go): the dictionary's first two bytes
+are the length of the "compressed" form, 0xFFFF is an error, the content is the dictionary's last byte -/
+def fakeCompress (base : Nat) (_p _q dict : Bytes) : Except Dict.DErr Bytes :=
+  match dict with
+  | [] => .ok (List.replicate base 0xAA)
+  | [a] => .ok (List.replicate a.toNat a)
+  | a :: b :: rest =>
+    let n := a.toNat + 256 * b.toNat
+    if n == 0xFFFF then .error .codec else .ok (List.replicate n ((b :: rest).getLast?.getD 0))
+
+def dErrWord : Dict.DErr → String
+  | .dictionaryIsTooLong => "dictionary-too-long"
+  | .invalidDictionary => "invalid-dictionary"
+  | .codec => "codec-error"
 
 structure St where
   cw : Option CW := none
@@ -164,6 +198,40 @@ def step (s : St) (l : List String) : St × String :=
         (s, s!"{resStr e} {toHex io.wBytes}")
       | _ => (s, "bad-op")
     | _, _, _, _, _ => (s, "bad-op")
+  | ["dictwrap", c, seed, n] =>
+    match seed.toNat?, n.toNat? with
+    | some seed, some n =>
+      let refine := if c == "z" then Dict.refineZlib else Dict.refineZstd
+      (s, match Dict.wrapResource refine (genBytes seed n) with
+        | .ok w => s!"ok {w.length} {hashBytes w}"
+        | .error e => "err " ++ dErrWord e)
+    | _, _ => (s, "bad-op")
+  | ["dictwraph", c, h] =>
+    match fromHex h with
+    | some h =>
+      let refine := if c == "z" then Dict.refineZlib else Dict.refineZstd
+      (s, match Dict.wrapResource refine h with
+        | .ok w => "ok " ++ toHex w
+        | .error e => "err " ++ dErrWord e)
+    | none => (s, "bad-op")
+  | ["dictload", ttag, ter, h] =>
+    match ttag.toNat?, fromHex h with
+    | some ttag, some h =>
+      (s, match Dict.load h (ter == "1") ttag with
+        | .ok d => "ok " ++ toHex d
+        | .error e => "err " ++ dErrWord e)
+    | _, _ => (s, "bad-op")
+  | ["dictsel", k, base, res] =>
+    match k.toNat?, base.toNat? with
+    | some k, some base =>
+      let resources : Option (List Bytes) := if res == "none" then some [] else (res.splitOn ",").mapM fromHex
+      match resources with
+      | some resources =>
+        (s, match Dict.saverCompress (fakeCompress base) (Dict.lastN k) [] [] resources with
+          | .ok (out, sec) => s!"ok {sec} {out.length} {toHex (out.take 1)}"
+          | .error e => "err " ++ dErrWord e)
+      | none => (s, "bad-op")
+    | _, _ => (s, "bad-op")
   | ["spec", h] => match fromHex h with
     | some h => (s, specVerdict h.toArray)
     | none => (s, "bad-op")
